@@ -9,7 +9,7 @@ PKGS=utils,utils/io,utils/log,catalog,executor,executor/buffile,executor/wal,pla
 RACE=${VERIF_RACE:-0}
 # tree hash: every .go file + go.mod/go.sum in repo, plus harness + instrumenter sources
 H=$( (cd "$REPO" && find . -name '*.go' -not -path './zzverif/*' -o -name go.mod -o -name go.sum | LC_ALL=C sort | xargs sha256sum; \
-      cd "$VERIF" && find sim tools build.sh -type f \( -name '*.go' -o -name 'go.mod' -o -name 'go.sum' -o -name build.sh \) | LC_ALL=C sort | xargs sha256sum) | sha256sum | cut -c1-20)
+      cd "$VERIF" && find sim inject tools build.sh -type f \( -name '*.go' -o -name 'go.mod' -o -name 'go.sum' -o -name build.sh \) | LC_ALL=C sort | xargs sha256sum) | sha256sum | cut -c1-20)
 OUT="$VERIF/.cache/$H"
 BIN="$OUT/sim"
 [ "$RACE" = 1 ] && BIN="$OUT/sim-race"
@@ -27,7 +27,7 @@ if [ ! -x "$VERIF/bin/instrument" ] || [ "$VERIF/tools/instrument/main.go" -nt "
 fi
 SCR=$(mktemp -d /dev/shm/verif-build.XXXXXX)
 trap 'rm -rf "$SCR"' EXIT
-"$VERIF/bin/instrument" -repo "$REPO" -out "$SCR/ov" -sim "$VERIF/sim" -pkgs "$PKGS" > "$OUT/instrument.log" 2> "$OUT/instrument.err" || { cat "$OUT/instrument.err" >&2; echo "instrumentation failed" >&2; exit 2; }
+"$VERIF/bin/instrument" -repo "$REPO" -out "$SCR/ov" -sim "$VERIF/sim" -inject "$VERIF/inject" -pkgs "$PKGS" > "$OUT/instrument.log" 2> "$OUT/instrument.err" || { cat "$OUT/instrument.err" >&2; echo "instrumentation failed" >&2; exit 2; }
 cp "$REPO/go.mod" "$SCR/go.mod"; cp "$REPO/go.sum" "$SCR/go.sum"
 cat >> "$SCR/go.mod" <<EOM
 
